@@ -228,7 +228,7 @@ Proof.
                 (lin_add_first_obs obs1 nops ndone nres oA obs2)) as Hm.
   destruct (script_model pre ctxs (lin_add_first ops1 m nops ops2)) as [[m0 mobs] mfin].
   rewrite !andb_true_iff, !negb_true_iff, !eqb_true_iff, pobs_matches_sound.
-  intros (((((((H0 & Hobs) & _) & _) & _) & Hret) & Hfin) & Hleak).
+  intros (((((H0 & Hobs) & _) & Hret) & Hfin) & Hleak).
   apply eqb_obs_eq in H0. subst m0 mfin leak.
   split; [exact Hret | left; apply Hm; exact Hobs].
 Qed.
